@@ -30,6 +30,11 @@ def main():
     pid, n = sys.argv[1], sys.argv[2]
     keep = "--keep" in sys.argv
     src = f"/tmp/seed-{pid}-out"
+    name = f"{pid}-{n}"
+    if "--src" in sys.argv:
+        src = sys.argv[sys.argv.index("--src") + 1]
+    if "--name" in sys.argv:
+        name = sys.argv[sys.argv.index("--name") + 1]
     patch = os.path.join(src, f"change{n}.diff")
     demo = os.path.join(src, f"demo{n}.py")
     meta = os.path.join(src, f"meta{n}.json")
@@ -73,7 +78,7 @@ def main():
         report["valid"] = valid
         print(json.dumps(report, indent=1))
         if valid and keep:
-            d = os.path.join(ROOT, "seeded", f"{pid}-{n}")
+            d = os.path.join(ROOT, "seeded", name)
             os.makedirs(d, exist_ok=True)
             shutil.copy(patch, os.path.join(d, "patch.diff"))
             shutil.copy(demo, os.path.join(d, "demo.py"))
